@@ -875,7 +875,7 @@ class Traverse(DeclContract):
         if g0 is not None:
             n = z3.Const('gmn', PyV)
             g = graph_view(ctx.now(), ctx.a.self)
-            out.append(('graph-nodes-are-only-added|C15', FA([n], z3.Implies(g0.node(n), g.node(n)), patterns=[g0.node(n)])))
+            out.append(('graph-nodes-are-only-added|C15', FA([n], z3.Implies(g0.node(n), g.node(n)), patterns=[g0.node(n), g.node(n)])))
         return out
 
     def _remember_visited(self, name):
